@@ -243,6 +243,13 @@ func read[EntityT entity.Interface](def Definition, wrapper func(e *Entity) Enti
 		}
 	}
 
+	// An entity is identified by its first operation: a history that carries none (only empty
+	// packs) is not an entity. Hand back an error rather than something whose Id() and Compile()
+	// crash on the missing first operation.
+	if len(ops) == 0 {
+		return *new(EntityT), fmt.Errorf("%s has no operation", def.Typename)
+	}
+
 	return wrapper(&Entity{
 		Definition: def,
 		ops:        ops,
